@@ -77,6 +77,10 @@ CHECKS["C09"] = dict(engine="wire", cat="exploration",
    text="histories over {send message/presence with unique markers, server <a h/> (exact, minus one, stale, zero, beyond), server <r/>, deliver message/presence/iq/nonza/two stanzas, connection loss, resume accepted with h all/some/none/stale, resume refused then new session with or without stream management}: two sends followed by every word of length <= 3 (quick) / 4 (thorough) over a 13-letter alphabet, plus random words up to length 40; the fake server keeps its own XEP-0198 counters and decides which acks it delivers; oracle: 'acknowledged' only for positions covered by a delivered ack, no report twice, retransmissions on a resumed/new session are exactly the uncovered stanzas in original order before newer ones, covered ones never come again, every <a h/> and <resume h/> equals the number of stanzas delivered on that session",
    note="after an ack that is inconsistent by construction (beyond what was sent / below what was acked) retransmission expectations of that history are not judged; sending while disconnected is not modelled",
    tech="runtime monitoring: offline checker over the recorded wire transcript with unique markers against a server-side XEP-0198 reference (ordering, conservation, exactly-once), under ASan/UBSan")
+CHECKS["C10"] = dict(engine="wire", cat="fault_enumeration",
+   text="9 protocol-conforming server scripts (SASL+bind, with session offered, with stream management, with resumable stream management, SASL2+bind2 with/without inline stream management, XEP-0078, see-other-host before and after authentication); the fake server drops the TCP connection after every protocol event k (every element sent or received, and once established with a request outstanding), for one and for every pair (k1,k2) of consecutive attempts (thorough: all triples for the two longest scripts), followed by a clean attempt; after every cut state()/isConnected()/isAuthenticated() are read, 'connected' emissions are counted per attempt, outstanding requests must complete exactly once, the clean attempt must answer every step of the script, must not ask to resume anything that was never resumable, and must end connected",
+   note="the fault is a TCP reset by the server on loopback (no half-open connections, no timeouts); a refused resumption is always followed by a fresh bind",
+   tech="runtime monitoring: exhaustive fault injection at every protocol event with state assertions at quiescence and a transcript grammar for the next attempt, under ASan/UBSan")
 REASON_TODO = "check not built yet in this session (planned, see DESIGN.md §2)"
 
 def main():
